@@ -105,4 +105,17 @@ theorem update (Rs : Matrix M M ℝ) (H : Matrix M N ℝ) (W : Matrix N N ℝ)
     rw [← d]; abel
   · rw [e4]; exact posSemidef_self_mul_conjTranspose G
 
+/-- what the gain K with K Ss = G buys, from the block identities (C stands for H W) -/
+theorem gain (C : Matrix M N ℝ) (W : Matrix N N ℝ) (Ss : Matrix M M ℝ) (G : Matrix N M ℝ) (Wp : Matrix N N ℝ) (K : Matrix N M ℝ)
+    (c : G * Ssᵀ = W * Cᵀ) (d : G * Gᵀ + Wp * Wpᵀ = W * Wᵀ) (hK : K * Ss = G) :
+    K * (Ss * Ssᵀ) = W * Cᵀ ∧ Wp * Wpᵀ = W * Wᵀ - K * (C * Wᵀ) ∧ (W * Wᵀ - Wp * Wpᵀ).PosSemidef := by
+  have hGG : G * Gᵀ = K * (C * Wᵀ) := by
+    calc G * Gᵀ = K * Ss * Gᵀ := by rw [hK]
+      _ = K * (G * Ssᵀ)ᵀ := by rw [transpose_mul, transpose_transpose, Matrix.mul_assoc]
+      _ = K * (C * Wᵀ) := by rw [c, transpose_mul, transpose_transpose]
+  have e : W * Wᵀ - Wp * Wpᵀ = G * Gᵀ := by rw [← d]; abel
+  refine ⟨by rw [← Matrix.mul_assoc, hK, c], ?_, ?_⟩
+  · rw [← hGG, ← d]; abel
+  · rw [e]; exact posSemidef_self_mul_conjTranspose G
+
 end SqrtFilter
